@@ -45,6 +45,9 @@ var mustCallTable = []mustCallEntry{
 	{Pkg: pkgEcho, Recv: "Echo", Func: "Start", Calls: []string{"go .Start"}, Exists: true, Why: "C11: the workers are started"},
 	{Pkg: pkgSqlite, Recv: "SqliteStore", Func: "Start", Calls: []string{"go .Start"}, Exists: true, Why: "C11: the worker is started"},
 	{Pkg: pkgPostgres, Recv: "PostgresStore", Func: "Start", Calls: []string{"go .Start"}, Exists: true, Why: "C11: the workers are started"},
+	{Pkg: pkgSqlite, Recv: "SqliteStore", Func: "Flush", Calls: []string{"worker.Flush"}, Why: "C11/C12: the tick's flush reaches the store worker, which otherwise waits for a full batch"},
+	{Pkg: pkgPostgres, Recv: "PostgresStore", Func: "Flush", Calls: []string{"worker.Flush"}, Exists: true, Why: "C11/C12: the tick's flush reaches every store worker, which otherwise waits for a full batch"},
+	{Pkg: pkgIAio, Recv: "aio", Func: "Flush", Calls: []string{"subsystem.Flush"}, Exists: true, Why: "C11/C12: the tick's flush reaches every subsystem"},
 	{Pkg: pkgSystem, Recv: "System", Func: "AddBackground", Calls: []string{"= append:.background"}, Why: "C11: a registered background coroutine is kept"},
 	{Pkg: pkgIApi, Recv: "api", Func: "AddSubsystem", Calls: []string{"= append:.subsystems"}, Why: "C12: a registered subsystem is kept"},
 	{Pkg: pkgSender, Recv: "SenderWorker", Func: "AddPlugin", Calls: []string{"[]=:.plugins"}, Why: "C19: a registered plugin is kept under its type"},
@@ -258,7 +261,7 @@ func ruleLifecycleCalls(c *Ctx) {
 		c.check(ok, key, where, strings.Join(e.Calls, ", ")+" on every path ("+e.Why+")", detail+" ("+e.Why+")")
 	}
 	c.count("lifecycle_functions", n)
-	c.floor("lifecycle functions with must-call obligations", n, 18)
+	c.floor("lifecycle functions with must-call obligations", n, 21)
 }
 
 
